@@ -141,6 +141,7 @@ type lockHist struct {
 	ops       *blockOps
 	tokens    []common.Address
 	failed    bool
+	vsetEnded bool // CometBFT refused this block's validator updates (judged by C13): the chain cannot go on from here
 	crashFn   func(*world.ErrCrash)
 	extra     func(*blockOps) // lets a check add requests to the generated block
 	hookAfter func(*world.Block)
@@ -501,6 +502,10 @@ func (h *lockHist) gen() *blockOps {
 
 // step executes the next block and records ground truth. It returns false when the history cannot go on.
 func (h *lockHist) step() bool {
+	if h.vsetEnded {
+		h.failed = true
+		return false
+	}
 	o := h.gen()
 	if h.extra != nil {
 		h.extra(o)
@@ -587,6 +592,12 @@ func (h *lockHist) step() bool {
 		for _, ci := range o.creates {
 			h.vals[ci].Created = false
 		}
+	}
+	if blk.VsetErr != nil {
+		// a real CometBFT halts here (the block is never committed); whether the refusal is the application's fault is
+		// C13's business. The monitors of this block still run; the next step ends the history.
+		h.vsetEnded = true
+		h.c.Count("histories_ended_by_refused_validator_update", 1)
 	}
 	return true
 }
